@@ -299,6 +299,11 @@ class Renderer:
             edits.append(Edit(a, c + 1, '()', ('drop', label, s.line_of(a))))
             self.meta['dropped'].append('%s:%d %s' % (s.path, s.line_of(a), ' '.join(s.text[a:c + 1].split())[:120]))
             self.rule('R1', '%s: log macro at %s:%d' % (label, s.path, s.line_of(a)))
+        # built-in R2: closure parameter `_` -> `_kN`
+        for n_, mm in enumerate(re.finditer(r'\|\s*_\s*\|', s.m[lo:hi])):
+            a = lo + mm.start()
+            edits.append(Edit(a, lo + mm.end(), '|_k%d|' % n_, ('subst', label, s.line_of(a))))
+            self.rule('R2', '%s: closure parameter `_` renamed at %s:%d' % (label, s.path, s.line_of(a)))
         # built-in R10: assert_ne!/assert_eq! with two plain arguments
         for mm in re.finditer(r'\bassert_(ne|eq)!\s*\(', s.m[lo:hi]):
             a = lo + mm.start()
@@ -314,7 +319,13 @@ class Renderer:
 
     def render_fn(self, d):
         rel, path = d['args'][0], d['args'][1]
-        s, f = self.locate_fn(rel, path)
+        try:
+            s, f = self.locate_fn(rel, path)
+        except ExtractError as e:
+            if d.get('rest', '').strip() == 'optional':
+                self.meta.setdefault('optional_missing', []).append(path.lstrip(':'))
+                return [Piece('// (optional item %s is not present in this tree)\n' % path, ('template', d['line']))]
+            raise
         label = path.lstrip(':')
         subs = d['subs']
         sig_lo, sig_hi = f['fn_kw'], f['sig_open']
